@@ -106,6 +106,7 @@ struct SlotOps {
     void (*lookup)(const void *obj, const double *x, uint64_t *bits) = nullptr;
     // group io
     bool has_io = false;
+    bool has_dmp = false;
     void (*dump)(const void *obj, std::ostream &) = nullptr;
     void (*load)(void *mem, std::istream &) = nullptr;
     void (*load_assign)(void *obj, std::istream &) = nullptr;
